@@ -11,8 +11,8 @@ ROOT = os.path.dirname(os.path.dirname(os.path.abspath(__file__)))
 
 INFO = {
     'C01': ('Model/Val,Graph; Proofs/NodeSem,Propagate,Compose', 'Props/C01, C01Sem, C01Compose', 'graph family differential (blocking mode + virtual loop)'),
-    'C02': ('Model/RateLimit,AsyncWindows,AsyncZip,AsyncBuffer', 'Props/C13 + c02_* of the node groups (index: Props/C02)', 'node-group correspondences + lossless oracle on random async pipelines'),
-    'C03': ('Model/Graph (tokens), AsyncZip, AsyncWindows, AsyncBuffer', 'Props/C03 + c03_* of the node groups', 'emit-status differential, backpressure oracle, threaded sample'),
+    'C02': ('Model/RateLimit,AsyncWindows,AsyncZip,AsyncBuffer,AsyncBufferFine,MapAsyncFine', 'Props/C13 + c02_* of the node groups (index: Props/C02)', 'node-group correspondences + lossless oracle on random async pipelines'),
+    'C03': ('Model/Graph (tokens), AsyncZip, AsyncWindows, AsyncBuffer, AsyncBufferFine, MapAsyncFine; Source (via C18)', 'Props/C03 + c03_* of the node groups', 'emit-status differential, backpressure oracle, threaded sample'),
     'C04': ('Model/Graph (reference table), node groups; Proofs/RefCount', 'Props/C04 (sync_*) + c04_* of the node groups', 'fires/counts differential with failures; holder oracle on async pipelines'),
     'C05': ('Model/Graph; Proofs/RefCount', 'Props/C05 + c05_* of the node groups', 'counts differential after every op; balance oracle'),
     'C06': ('Model/Agg', 'Props/C06', 'Aggregation objects + full API vs model vs pandas'),
